@@ -218,14 +218,16 @@ def gen_backlog(rng):
     limit = rng.choice([30, 40, 60]) if v == 5 else None
     rm = rng.choice([None, 1, 2]) if v == 5 else None
     ops = [f"new mode=onlyonce q0=1 mi={rng.choice([100, 2])}", "conn p cp v=5 cs=1"]
-    def connect(name):
+    def connect(name, lim=None):
         line = f"conn {name} cs v={v} cs=0"
         if v == 5:
             line += " se=300"
-            if limit: line += f" mp={limit}"
+            if lim: line += f" mp={lim}"
             if rm: line += f" rm={rm}"
         ops.append(line)
-    connect("s1")
+    # the connection that creates the session may declare another (or no) Maximum Packet Size than the one that resumes it
+    first_limit = rng.choice([limit, limit, None, 1000]) if limit else None
+    connect("s1", first_limit)
     ops.append(f"sub s1 1 t/#|{rng.choice([1, 2, 2])}")
     pid, tag = 1, 0
     def burst(k):
@@ -241,9 +243,10 @@ def gen_backlog(rng):
     if mode == "offline":
         ops.append(rng.choice(["close s1", "disc s1"]))
         burst(rng.randint(2, 7))
-        connect("s2")
+        connect("s2", limit)
         last = "s2"
     else:
+        limit = first_limit
         burst(rng.randint(3, 8))      # the window (rm / mi) fills, the rest waits in the queue
         last = "s1"
     for _ in range(10):
